@@ -157,7 +157,8 @@ def build_relic(cfg, extra_args=None, tag=None):
         base = os.path.join(BUILD, "relic")
         os.makedirs(base, exist_ok=True)
         for d in os.listdir(base):
-            if d.startswith(name + "-") and d != os.path.basename(bdir):
+            # exactly <name>-<16 hex digits>: "ed255" must not evict "ed255-extnd-..."
+            if re.fullmatch(re.escape(name) + r"-[0-9a-f]{16}", d) and d != os.path.basename(bdir):
                 shutil.rmtree(os.path.join(base, d), ignore_errors=True)
         shutil.rmtree(bdir, ignore_errors=True)
         cflags = "-Wno-error -D%s %s" % (GUARD, c.get("cflags", ""))
@@ -647,12 +648,21 @@ class Conformance:
             self.known_hits[key] = self.known_hits.get(key, 0) + 1
         for msg in v.infra:
             self.infra.append(msg)
-        # confirm each rejection by running the case alone
-        for (e, shard, idx) in v.rejected:
+        # confirm each rejection by running the case alone (in parallel; beyond a cap the remaining
+        # rejections are not re-run - at least the confirmed ones are reported)
+        from concurrent.futures import ThreadPoolExecutor
+        CAP = 48
+        todo = v.rejected[:CAP]
+        if len(v.rejected) > CAP:
+            log("%s/%s: %d rejections, confirming the first %d" % (self.prop, label, len(v.rejected), CAP))
+
+        def confirm(item):
+            (e, shard, idx) = item
             ci = e.get("i", -1)
             line = cases[ci] if 0 <= ci < len(cases) else None
             confirmed = True
             ev2 = [e]
+            infra = []
             if line is not None and e.get("op") not in ("CRASH", "TIMEOUT"):
                 rd = os.path.join(d, "confirm%d" % ci)
                 os.makedirs(rd, exist_ok=True)
@@ -666,13 +676,19 @@ class Conformance:
                 open(cp, "w").write(line + "\n")
                 ev2 = run_driver(exe, cp, os.path.join(rd, "trace.ndjson"), timeout=300, args=driver_args)
                 if event_map:
-                    ev2 = [event_map(e) for e in ev2]
-                v2 = validate_trace(spec, ev2, os.path.join(rd, "tlc"), shards=1, env=tenv, timeout=300,
+                    ev2 = [event_map(x) for x in ev2]
+                v2 = validate_trace(spec, ev2, os.path.join(rd, "tlc"), shards=1, env=tenv, timeout=600,
                                     cfg=spec_cfg)
                 confirmed = bool(v2.rejected)
                 if v2.infra:
-                    self.infra.extend(v2.infra)
+                    infra = v2.infra
                     confirmed = False
+            return e, ci, line, confirmed, ev2, infra
+
+        with ThreadPoolExecutor(max_workers=8) as ex:
+            results = list(ex.map(confirm, todo))
+        for e, ci, line, confirmed, ev2, infra in results:
+            self.infra.extend(infra)
             rp = save_replay(self.prop, dict(property=self.prop, label=label, cfg=cfg,
                                               driver=driver_name, driver_srcs=driver_srcs, spec=spec,
                                               extra_cc=extra_cc, wraps=wraps, env=env, spec_cfg=spec_cfg,
@@ -680,7 +696,7 @@ class Conformance:
                              name="%s-%s" % (label, ci))
             if confirmed:
                 self.violations.append((rp, "op=%s case=%r" % (e.get("op"), line)))
-            else:
+            elif not infra:
                 self.infra.append("rejection of case %r in %s did not repeat" % (line, label))
         self.ev.cov["traces_validated_against_impl"] += v.accepted
         self.ev.cov["evaluations"] += len(all_events)
